@@ -14,9 +14,8 @@ runtime.py's hand-computed result shapes and to NumPy's data movement by the dri
 * `matmul_shape`, `matmul_index`  shape rules of `_matmul_shape`; entry (i,j) = row i · column j;
 * `reshape_*`, `transpose_involution`, `concatenate_split_roundtrip`, `roll_*`  index-map lemmas of the
                           reshaping family;
-* `stack_shape_*`         the declared shape of `np_stack` is NumPy's for 0 ≤ axis ≤ ndim and — FINDING —
-                          is NOT NumPy's for negative axes (witness proved by `decide`, replayed on the
-                          real code by the harness).
+* `stack_shape`           the declared shape of `np_stack` is NumPy's for every valid axis (after fix 86712c2;
+                          `old_stack_rule_negative_axis_differs` is the proved witness against the old rule).
 -/
 import MpycV.Lemmas.ArrayOps
 
@@ -184,15 +183,19 @@ example : flipAxis [2, 3] 1 [1, 2, 3, 4, 5, 6] = [3, 2, 1, 6, 5, 4] ∧
 
 /-! ### declared shape of `np_stack` (runtime.py:3024-3026) -/
 
-/-- for `0 ≤ axis ≤ ndim` the shape declared by `np_stack` is NumPy's -/
-theorem stack_shape_nonneg (s : Shape) (n ax : Nat) (h : ax ≤ s.length) :
-    npStackShape s n (ax : Int) = some (stackShape s n (ax : Int)) := stackShape_eq_np_of_nonneg s n ax h
+/-- for every valid axis (`-(ndim+1) ≤ axis ≤ ndim`) the shape declared by `np_stack` is NumPy's -/
+theorem stack_shape (s : Shape) (n : Nat) (ax : Int)
+    (h1 : -((s.length : Int) + 1) ≤ ax) (h2 : ax ≤ (s.length : Int)) :
+    npStackShape s n ax = some (stackShape s n ax) := stackShape_eq_np s n ax h1 h2
 
-/-- FINDING (the code does not satisfy the property for negative axes): `shape.insert(axis, n)` with
-Python list semantics puts the new axis one position too far to the left. Witness: two arrays of shape
-(2,3) stacked with axis=-1: declared (2,2,3), NumPy (and the actual data) (2,3,2). Replayed on the real
-code by harness/props/c37.py (finding key `np_stack_negative_axis_shape`). -/
-theorem stack_shape_negative_axis_differs :
-    stackShape [2, 3] 2 (-1) = [2, 2, 3] ∧ npStackShape [2, 3] 2 (-1) = some [2, 3, 2] := by decide
+example : stackShape [2, 3] 2 (-1) = [2, 3, 2] ∧ stackShape [2, 3] 2 (-3) = [2, 2, 3] ∧
+    stackShape [2, 3] 2 1 = [2, 2, 3] := by decide
+
+/-- Regression theorem about the rule used BEFORE fix 86712c2 (`shape.insert(axis, n)`): with Python list
+semantics a negative axis lands one position too far to the left. Witness: two arrays of shape (2,3)
+stacked with axis=-1: old rule (2,2,3), NumPy (and the data) (2,3,2). The reproducer is kept as corpus
+replay corpus/C37/np_stack_negative_axis.json. -/
+theorem old_stack_rule_negative_axis_differs :
+    stackShapeOld [2, 3] 2 (-1) = [2, 2, 3] ∧ npStackShape [2, 3] 2 (-1) = some [2, 3, 2] := by decide
 
 end MpycV.C37
